@@ -1597,10 +1597,13 @@ i.e a % mod in set([i**n % mod for i in range(mod)]).
     map_integer_uint prime_mul;
     prime_factor_multiplicities(prime_mul, *mod2);
     bool ret_val;
+    // only the residue class of `a` matters (`a` may be negative)
+    integer_class a_red;
+    mp_fdiv_r(a_red, a.as_integer_class(), _mod);
 
     for (const auto &it : prime_mul) {
         ret_val = _is_nthroot_mod_prime_power(
-            a.as_integer_class(), n.as_integer_class(),
+            a_red, n.as_integer_class(),
             it.first->as_integer_class(), it.second);
         if (not ret_val)
             return false;
